@@ -44,6 +44,9 @@ CLAIMS['C02'] = dict(cat='proof', ref='DESIGN.md 5/C02',
    text='Complete enumeration of the finite configuration space the property names, on the real functions: energy-mode deduction and its RuntimeErrors (192 cases), graph selection against the documented composition incl. no wrong-mode kernel (100 cases), convert passes exactly the reported graph to transform_coords and translates KeyError to RuntimeError on both branches, and for all 4 origins x 11 targets x scatter x 2^11 coordinate subsets (180224 configurations): the target is derivable in the graph the code selects iff it is derivable from the documented relations (spec tables written independently). Values follow from the kernel contracts of C01/C03/C05 along the derivation.',
    note='Trusted: assumed contract of scipp transform_coords (derivability fixpoint, precedence of supplied coordinates, KeyError) -- validated boundedly: 1500/40000 random real conversions compared for success/exception class and numeric value against a numpy composition of the formulas.',
    tech='contract-based: exhaustive evaluation of the real functions over the finite domain named by the property, against spec tables; dependency contract assumed + bounded validation')
+CLAIMS['C19'] = dict(cat='proof', ref='DESIGN.md 5/C19',
+   text='_is_approximate_multiple: result = (dist(x/ref, Z) < rtol) or (dist(ref/x, Z) < rtol) for all x (incl. 0) and ref != 0, with the lemma that sc.round attains the distance to the integers (LIRA), so this is exactly "within rtol of an integer multiple or divisor"; filter_in_phase keeps exactly the masked elements; find_plateaus: with arrays modelled as functions of the index (slicing, cumsum, concat as assumed contracts) the group id satisfies id_0 = 0 and id_{k+1}-id_k = [|slope_k| > atol] for every k and every length; equal ids <=> no exceeding slope in between (induction base+step); groups kept iff size >= min_n_points, refusals for non-1-d / unsorted input, RuntimeError only from the drift guard; collapse: mean and [min, next_highest(max)) with next_highest(x) > x. Bounded: brute-force reference on the real library (maximal runs, exact rationals).',
+   note='Trusted: scipp contracts for round, slicing, cumsum, concat, group, boolean-mask indexing, bins.mean/min/max (assumed; group/mask/bins validated only by the bounded brute-force comparison), numpy nextafter, the induction principle.')
 NA = {}
 checks = []
 for p in props:
